@@ -82,7 +82,14 @@ func fullReadScan(p *Program, r *RuleResult, fns []*ssa.Function) {
 		eachCall(fn, func(c ssa.CallInstruction) {
 			if f := calleeFunc(c); f != nil && f.Pkg() != nil && f.Pkg().Path() == "io" {
 				switch f.Name() {
-				case "ReadFull", "ReadAtLeast", "ReadAll", "Copy", "CopyN":
+				case "ReadAtLeast":
+					if ok, why := readAtLeastIsFull(fn, c); ok {
+						r.okWhy(callKey(fn, c), p.Rel(c.Pos()), "a single Read call is not assumed to fill the buffer", why)
+					} else {
+						r.bad(callKey(fn, c), p.Rel(c.Pos()), "a single Read call is not assumed to fill the buffer", funcName(fn)+" "+why)
+					}
+					return
+				case "ReadFull", "ReadAll", "Copy", "CopyN":
 					r.okWhy(callKey(fn, c), p.Rel(c.Pos()), "a single Read call is not assumed to fill the buffer", "read made by io."+f.Name()+", which loops until the request is satisfied")
 					return
 				}
@@ -267,4 +274,66 @@ func readResults(call *ssa.Call) []ssa.Value {
 		}
 	}
 	return out
+}
+
+// readAtLeastIsFull: io.ReadAtLeast(r, buf, min) is a full read only when min is the
+// buffer's length; otherwise fewer bytes than the buffer may come back, and what
+// follows must continue at the returned count.
+func readAtLeastIsFull(fn *ssa.Function, c ssa.CallInstruction) (bool, string) {
+	args := c.Common().Args
+	if len(args) != 3 {
+		return true, "read made by io.ReadAtLeast"
+	}
+	full := false
+	if x := lenArgOf(args[2]); x != nil && (x == args[1] || stripConv(x) == stripConv(args[1])) {
+		full = true
+	}
+	if sl, ok := args[1].(*ssa.Slice); ok && !full {
+		if sl.High != nil && (sl.High == args[2] || stripConv(sl.High) == stripConv(args[2])) && sl.Low == nil {
+			full = true
+		}
+		if sl.High != nil {
+			if hk, ok1 := constInt(sl.High); ok1 {
+				if mk, ok2 := constInt(args[2]); ok2 {
+					lk := int64(0)
+					if sl.Low != nil {
+						lk, _ = constInt(sl.Low)
+					}
+					full = mk == hk-lk
+				}
+			}
+		}
+	}
+	if full {
+		return true, "read made by io.ReadAtLeast with the buffer's length as minimum"
+	}
+	var n ssa.Value
+	if call, ok := c.(*ssa.Call); ok {
+		for _, ref := range *call.Referrers() {
+			if ex, ok := ref.(*ssa.Extract); ok && ex.Index == 0 {
+				n = ex
+			}
+		}
+	}
+	if n == nil {
+		return false, "calls io.ReadAtLeast with a minimum below the buffer's length and ignores how many bytes arrived"
+	}
+	for v := range forward([]ssa.Value{n}, fwdOpts{}) {
+		if s2, ok := v.(*ssa.Slice); ok {
+			_ = s2
+		}
+	}
+	// some later slice expression must start at (a value derived from) the count
+	for _, b := range fn.Blocks {
+		for _, in := range b.Instrs {
+			if s2, ok := in.(*ssa.Slice); ok && s2.Low != nil {
+				for x := range backward(s2.Low, nil) {
+					if x == n {
+						return true, "partial io.ReadAtLeast whose count positions the follow-up read"
+					}
+				}
+			}
+		}
+	}
+	return false, "calls io.ReadAtLeast with a minimum below the buffer's length, and no later read resumes at the returned count (a follow-up read at a fixed offset overwrites or skips bytes when the first read ends in between)"
 }
